@@ -107,6 +107,33 @@ def run(ctx):
         ctx.ob("C12.retry", "failure leaves dirty set", not bad and len(sites) >= 8,
                "%d fallible sites enumerated; dirty written after a failure of: %s" % (len(sites), sorted(set(bad))),
                site=ctx.site_of(F, f["def"]), key="C12.retry|finalize|fail-keeps-dirty")
+        # a failed finalize leaves the writer's running state as it found it, so that the retry recomputes the same headers:
+        # on a failing path the only fields that may be left changed are those an undisturbed finalize also leaves changed
+        # (the in-place zeroing of untouched ranges, which is idempotent)
+        ok_changed = set()
+        for p in succ:
+            fin_ = {}
+            for e in absint.flat_effects(p.eff):
+                if e[0] == 'store' and e[1][0] == ('T', ('param', 1)):
+                    fin_[e[1][1]] = e[2]
+            for pth, v in fin_.items():
+                if v != ('load', (('T', ('param', 1)), pth)):       # saved-and-restored is not a change
+                    ok_changed.add(pth)
+        left = set()
+        for s_, w in sites:
+            for p in absint.Interp(F, fail_site=s_).run(f):
+                if not any(x == s_ for x, _ in discipline.site_effects(p)) or p.status != 'return':
+                    continue
+                final = {}
+                for e in absint.flat_effects(p.eff):
+                    if e[0] == 'store' and e[1][0] == ('T', ('param', 1)):
+                        final[e[1][1]] = e[2]
+                for pth, v in final.items():
+                    if pth not in ok_changed and v != ('load', (('T', ('param', 1)), pth)):
+                        left.add("%s after a failure of %s" % (absint.path_str((('T', ('param', 1)), pth)), w.split('::')[-1]))
+        ctx.ob("C12.retry", "failure leaves the running state", not left,
+               "; ".join(sorted(left)[:4]) or "no field of the writer is left changed by a failing finalize (beyond what a successful one changes)",
+               site=ctx.site_of(F, f["def"]), key="C12.retry|finalize|fail-keeps-state")
         # first operation per destination is seek(Start(0))
         for p in succ:
             first = {}
@@ -123,6 +150,21 @@ def run(ctx):
             ctx.ob("C12.retry", "absolute seek first (%d destinations)" % len(first), good, "; ".join(desc),
                    site=ctx.site_of(F, f["def"]), key="C12.retry|finalize|abs-seek-first")
 
+    # --- buffering inside the library: a BufWriter dropped without flush swallows the error of its last write -------------
+    BUFW = ("std::io::BufWriter::<W>::new", "std::io::BufWriter::<W>::with_capacity", "std::io::LineWriter::<W>::new")
+    nb = 0
+    for g in F.identity_fns():
+        if g.get("krate") != F.crate:
+            continue
+        for b, t in mir.calls(g):
+            if mir.callee_decl(t) in BUFW:
+                nb += 1
+                ctor = g["def"].split("::{closure")[0].endswith(("::from_path", "::from_path_with_info"))
+                ctx.ob("C12.errs", "%s creates a BufWriter" % g["def"], ctor,
+                       "a BufWriter created for the caller by a from_path constructor (flushed by finalize)" if ctor else
+                       "a BufWriter local to the library: bytes still buffered when it is dropped are written by its Drop, which "
+                       "discards the error, so a failing destination is answered with Ok", site=ctx.site_of(F, g["def"], b),
+                       key="C12.errs|bufwriter|%s" % g["def"])
     # --- short writes -------------------------------------------------------------------------
     allids = list(F.identity_fns())
     n = discipline.banned_calls(ctx, F, "C12.short", BANNED_WRITE, allids, "a short write would silently lose bytes")
